@@ -16,13 +16,15 @@ import (
 )
 
 type c16case struct {
-	Instant   string `json:"instant"` // RFC3339Nano in its own zone
-	Zone      string `json:"zone"`    // "UTC", "+05:30" style fixed offset, or IANA name
+	Instant   string `json:"instant"`  // RFC3339Nano in its own zone
+	Zone      string `json:"zone"`     // "UTC", "+05:30" style fixed offset, or IANA name
 	Flags     int    `json:"dt_flags"` // bit0 Ldate, bit1 Ltime, bit2 Lmicroseconds
 	LocalTime bool   `json:"local_time_flag"`
 	UTCMode   string `json:"utc_mode"` // unset | false | true | default-arg
 	Layout    string `json:"layout"`   // "" = unset; "<default>" = SetTimeFormat() without argument
 	Format    string `json:"format"`
+	Prior     string `json:"prior_record,omitempty"` // "" | utc-logger | local-layout-logger : a record emitted just before by another logger
+	FlagPath  string `json:"flag_path,omitempty"`    // "" = SetFlags | "scope" = a SaveFlagsAndMod scope toggling the date/time flags has just ended
 }
 
 // reference table flag-combination -> layout, written from the documented
@@ -83,8 +85,23 @@ func c16eval(cas c16case) *Violation {
 		fl |= slog.LlocalTime
 	}
 	slog.SetFlags(fl)
+	if cas.FlagPath == "scope" {
+		restore := slog.SaveFlagsAndMod(slog.Ldatetimeflags&^(fl&slog.Ldatetimeflags)|slog.LlocalTime&^(fl&slog.LlocalTime), fl&slog.Ldatetimeflags, fl&slog.LlocalTime)
+		restore()
+	}
 	rec := &recorder{}
 	w := &plainW{"w", rec}
+	if cas.Prior != "" {
+		// another logger formats a record first (same pools): its time settings must not leak
+		o := slog.New("other").SetWriter(w).SetErrorWriter(w).SetLevel(slog.AlwaysLevel)
+		if cas.Prior == "utc-logger" {
+			o.SetUTCMode(true)
+		} else {
+			o.SetUTCMode(false).SetTimeFormat(time.RFC1123Z)
+		}
+		o.WriteThru(bg, slog.InfoLevel, time.Date(2001, 2, 3, 4, 5, 6, 7, time.FixedZone("", -3*3600)), 0, "prior", nil)
+		rec.reset()
+	}
 	l := slog.New("lg").SetWriter(w).SetErrorWriter(w).SetLevel(slog.AlwaysLevel)
 	switch cas.Format {
 	case "json":
@@ -122,7 +139,7 @@ func c16eval(cas c16case) *Violation {
 	}
 	pan := catch(func() { l.WriteThru(bg, slog.InfoLevel, inst, 0, "m", nil) })
 	mk := func(clause, detail string) *Violation {
-		sig := fmt.Sprintf("C16|%s|format=%s|flags=%d|localtime=%v|utc=%s|layout=%q|zone=%s", clause, cas.Format, cas.Flags, cas.LocalTime, cas.UTCMode, cas.Layout, cas.Zone)
+		sig := fmt.Sprintf("C16|%s|format=%s|flags=%d|localtime=%v|utc=%s|layout=%q|zone=%s|prior=%s|flags-via=%s", clause, cas.Format, cas.Flags, cas.LocalTime, cas.UTCMode, cas.Layout, cas.Zone, cas.Prior, cas.FlagPath)
 		return mkViolation(sig, clause, detail, cas)
 	}
 	if pan != "" {
@@ -186,7 +203,7 @@ func c16eval(cas c16case) *Violation {
 var c16last string
 
 func c16cases(thorough bool, emit func(c16case)) {
-	zones := []string{"UTC", "+05:30", "-08:00", "+14:00", "America/New_York", "Europe/Lisbon"}
+	zones := []string{"UTC", "+05:30", "-08:00", "+14:00", "America/New_York", "Europe/Lisbon", "-03:30", "-09:30", "-00:44"}
 	var instants []time.Time
 	for _, y := range []int{1, 1970, 2024, 9999} {
 		for _, md := range [][2]int{{1, 1}, {2, 29}, {12, 31}} {
@@ -219,7 +236,22 @@ func c16cases(thorough bool, emit func(c16case)) {
 								if !thorough && (ii+zi+li+fi+flags)%2 != 0 {
 									continue
 								}
-								emit(c16case{Instant: t.In(c16loc(z)).Format(time.RFC3339Nano), Zone: z, Flags: flags, LocalTime: lt, UTCMode: um, Layout: lay, Format: f})
+								cas := c16case{Instant: t.In(c16loc(z)).Format(time.RFC3339Nano), Zone: z, Flags: flags, LocalTime: lt, UTCMode: um, Layout: lay, Format: f}
+								emit(cas)
+								// a rotating variant: a prior record of another logger, or flags that went through a save/restore scope
+								k := ii + zi + li + fi + flags
+								if thorough || k%4 == 0 {
+									v := cas
+									switch k % 3 {
+									case 0:
+										v.Prior = "utc-logger"
+									case 1:
+										v.Prior = "local-layout-logger"
+									default:
+										v.FlagPath = "scope"
+									}
+									emit(v)
+								}
 							}
 						}
 					}
